@@ -90,6 +90,30 @@ func checkCopy(c fam.Case) *fail {
 				f = &fail{"uses-records-without-the-option", "no Entry.Uses records", p, classes(c)}
 				return
 			}
+			// lookups in the statement tree walk through the uses statements into the groupings; a
+			// processing run after them builds the same trees
+			for _, m := range []string{"a", "b"} {
+				mod := ms.Modules[m]
+				for _, top := range sortedKids(w.Trees[m]) {
+					for _, k := range sortedKids(top) {
+						if top.Kind == "rpc" || top.Kind == "choice" || top.Kind == "notification" || k.Kind == "case" || k.Implicit {
+							continue
+						}
+						path := "/" + mod.GetPrefix() + ":" + top.Name + "/" + k.Name
+						yang.FindNode(mod, path) // (what it finds is not C06's business: it does not look into submodules)
+					}
+				}
+			}
+			if errs := ms.Process(); len(errs) > 0 {
+				f = &fail{"process-errors:after-statement-tree-lookups", "no errors", dump.Errors(errs), classes(c)}
+				return
+			}
+			for _, m := range []string{"a", "b"} {
+				if d := ircmp.Compare(w.Trees[m], yang.ToEntry(ms.Modules[m]), ircmp.All); len(d) > 0 {
+					f = &fail{"copy-differs-from-reference-inlining:after-statement-tree-lookups", "the reference tree", m + strings.Join(d, "\n"+m), classes(c)}
+					return
+				}
+			}
 		}
 		// the same with the option that records, on every node, the uses statements written in it:
 		// the copies are what they are without it, and the records name the statements in order
@@ -123,6 +147,19 @@ func checkCopy(c fam.Case) *fail {
 		return &fail{"panic@" + core.LastPanicSite, "no panic", pt, classes(c)}
 	}
 	return f
+}
+
+func sortedKids(e *ir.E) []*ir.E {
+	var ks []string
+	for k := range e.Kids {
+		ks = append(ks, k)
+	}
+	sort.Strings(ks)
+	var out []*ir.E
+	for _, k := range ks {
+		out = append(out, e.Kids[k])
+	}
+	return out
 }
 
 // usesRecords checks Entry.Uses on every node of every module: empty without the option; with it,
